@@ -432,3 +432,801 @@ def rule_c10(ctx, prog, rule="R19"):
 def _h_identity(hp_term, kl_term):
     # results are −Σ of the terms:  −ce = −hp − kl  ⇔ ce = hp + kl   (termwise, non-zero branch)
     return ("add", hp_term, kl_term)
+
+
+# ======================================================================================= reductions (fold / for loop)
+
+def reduction_in(prog, body, value_expr=None):
+    """the accumulation a body performs, from either idiom:
+         iterator.fold(init, |acc, item| step)            or        let mut acc = init; for item in iterator { acc = step }
+    → dict(init=T, step=T over ACC/e0/e1…, producers=[(body, root expr)], idiom=str)"""
+    tb = prog.tracked(body)
+    # idiom 1: a fold call
+    for bb, t in tb.calls():
+        if callee_name(t) == "fold" and (t["callee"].get("trait") or "").endswith("Iterator"):
+            args = tb.call_arg_exprs(bb)
+            cb, ups = closure_of(prog, args[2])
+            if cb is None:
+                raise Unrecognised("fold with a non-closure function")
+            struct, prods = T.zip_structure(prog, tb, args[0])
+            syms = {2: ("sym", "ACC")}
+            item = ("param", 3, cb.local_name(3))
+            # closure param 3 is the item (tuple pattern): map its fields
+            fields = {}
+
+            def go(path, st):
+                if isinstance(st, str):
+                    fields[(3,) + path] = ("sym", st)
+                    if not path:
+                        syms[3] = ("sym", st)
+                    return
+                for i, sub in enumerate(st):
+                    go(path + (str(i),), sub)
+            go((), struct)
+            syms.update(fields)
+            ret, upd = closure_terms(prog, cb, syms)
+            K = Kernel(prog, tb, _leaf_for(prog, tb, {}))
+            return dict(init=K.term(args[1]), step=ret, producers=prods, idiom="fold", site=bb, body=tb)
+    # idiom 2: a for loop with one carried accumulator
+    lp = T.Loop(tb)
+    it = lp.iterator()
+    if it is None:
+        raise Unrecognised("loop is not an iterator loop")
+    il, item, iinit = it
+    struct, prods = T.zip_structure(prog, tb, iinit)
+    isyms = T.item_symbols(item, struct)
+    accs = [l for l in lp.carried if l != il and not tb.local_ty(l).startswith("bool")]
+    accs = [l for l in accs if tb.local_name(l)]
+    if len(accs) != 1:
+        raise Unrecognised("%d loop-carried accumulators" % len(accs))
+    acc = accs[0]
+    phi = ds(lp.head_phi(acc))
+
+    def leaf(e):
+        if e == phi:
+            return ("sym", "ACC")
+        if e in isyms:
+            return isyms[e]
+        return _leaf_for(prog, tb, {})(e)
+    K = Kernel(prog, tb, leaf)
+    return dict(init=K.term(lp.init_expr(acc)), step=K.term(lp.step_expr(acc)), producers=prods, idiom="for", body=tb, acc=acc)
+
+
+def array_sum_leaf(prog, names):
+    """leaf resolver for whole-array reductions: sum(X), mean(X) with X = parameter or map/mapv(parameter, closure)"""
+    def elem_term(body, x):
+        x = ds(x)
+        if isinstance(x, tuple) and x[0] == "param" and x[1] in names:
+            return ("sym", names[x[1]])
+        if isinstance(x, tuple) and x[0] == "call" and x[1] in ("map", "mapv", "mapv_into") and len(x[3]) == 2:
+            inner = elem_term(body, x[3][0])
+            cb, ups = closure_of(prog, x[3][1])
+            if cb is None:
+                raise Unrecognised("map with non-closure")
+            ret, _ = closure_terms(prog, cb, {2: inner}, upvar_leaf=lambda e: ("sym", "^%s" % e[2]))
+            return ret
+        if isinstance(x, tuple) and x[0] == "call" and x[1] in ("view", "to_owned", "clone", "into_owned") and x[3]:
+            return elem_term(body, x[3][0])
+        raise Unrecognised("array expression `%s`" % fmt(x)[:80])
+
+    def extra(body, e):
+        if isinstance(e, tuple) and e[0] == "call" and e[1] == "sum" and len(e[3]) == 1 and "ndarray" in e[2]:
+            return ("sym", "Σ[%s]" % show(canon_op(elem_term(body, e[3][0]))))
+        if isinstance(e, tuple) and e[0] == "call" and e[1] == "mean" and len(e[3]) == 1 and "ndarray" in e[2]:
+            return ("div", ("sym", "Σ[%s]" % show(canon_op(elem_term(body, e[3][0])))), ("sym", "N"))
+        if isinstance(e, tuple) and e[0] == "call" and e[1] == "ok_or" and e[3]:
+            return None
+        return None
+    return extra
+
+
+def scalar_value(prog, root, names, e=None):
+    """T-term of a scalar expression of a routine with array reductions abstracted as Σ[...] symbols; Option/Result adapters
+    (map, ok_or, ?) are seen through"""
+    tb = prog.tracked(root)
+    extra = array_sum_leaf(prog, names)
+    base_leaf = _leaf_for(prog, tb, {}, extra)
+
+    def leaf(x):
+        # Option::map(opt, closure) on scalars / ok_or
+        if isinstance(x, tuple) and x[0] == "call" and x[1] == "ok_or" and x[3]:
+            return K.term(x[3][0])
+        if isinstance(x, tuple) and x[0] == "call" and x[1] == "map" and len(x[3]) == 2 and "option" in x[2]:
+            cb, ups = closure_of(prog, x[3][1])
+            inner = K.term(x[3][0])
+            ret, _ = closure_terms(prog, cb, {2: inner})
+            return ret
+        return base_leaf(x)
+    K = Kernel(prog, tb, leaf)
+    if e is None:
+        ex = tb.exits()
+        finals = []
+        for d in tb.reaching_defs(0, ex[0], "term"):
+            v = ds(tb.def_expr(0, d))
+            if isinstance(v, tuple) and v[0] == "agg" and v[1] == "std::result::Result" and v[2] == "Ok":
+                finals.append(v[3][0])
+            elif isinstance(v, tuple) and v[0] == "agg" and v[2] == "Err":
+                continue
+            elif isinstance(v, tuple) and v[0] == "call" and v[1] != "from_residual":
+                finals.append(v)
+        if len(finals) != 1:
+            raise Unrecognised("%d success values" % len(finals))
+        e = finals[0]
+    return K.term(e)
+
+
+def rule_c06(ctx, prog, rule="R19"):
+    rec = Recorder(ctx, rule)
+    S = lambda n: prog.method("SummaryStatisticsExt", n)
+    x = ("sym", "x")
+    # mean, harmonic, geometric
+    for name, spec in (("mean", ("div", ("sym", "Σ[x]"), ("sym", "N"))),
+                       ("harmonic_mean", ("fn", "recip", ("div", ("sym", "Σ[recip(x)]"), ("sym", "N")))),
+                       ("geometric_mean", ("fn", "exp", ("div", ("sym", "Σ[ln(x)]"), ("sym", "N"))))):
+        root = S(name)
+        try:
+            t = scalar_value(prog, root, {1: "x"})
+            rec.equal("%s/formula" % name, root.where(), t, spec, "not the defined mean", name)
+        except Unrecognised as ex:
+            unrec(ctx, rule, "%s/formula" % name, root.where(), ex)
+    # weighted_sum: Σ d·w from zero, producers (self, weights)
+    ws = S("weighted_sum")
+    ws_red = None
+    try:
+        ws_red = reduction_in(prog, ws)
+        w = ws.where()
+        ctx.ob(rule, "weighted_sum/init", ws_red["init"] == ("num", 0), w, "accumulator starts at zero()", what="sum does not start at 0")
+        prods = ws_red["producers"]
+        p_ok = len(prods) == 2 and prods[0][1][:2] == ("param", 1) and prods[1][1][:2] == ("param", 2)
+        ctx.ob(rule, "weighted_sum/producers", p_ok, w, "pairs self with weights element by element (logical order)" if p_ok else
+               "the reduction does not pair (self, weights): %s" % [fmt(p[1]) for p in prods], what="data not paired with weights by logical index")
+        inc = inc_of(ws_red["step"])
+        if inc is None:
+            ctx.ob(rule, "weighted_sum/accumulates", False, w, "step is `%s`, not ACC + term" % show(ws_red["step"]), what="not a plain sum")
+        else:
+            rec.equal("weighted_sum/term", w, inc, ("mul", ("sym", "e0"), ("sym", "e1")), "term is not d·w", "Σ term of weighted_sum (%s idiom)" % ws_red["idiom"])
+    except Unrecognised as ex:
+        unrec(ctx, rule, "weighted_sum/kernel", ws.where(), ex)
+    # weighted_sum_axis: per lane the same kernel (KERNEL-EQ, operational)
+    wsa = S("weighted_sum_axis")
+    try:
+        ok = False
+        detail = "no map_axis(self, axis, closure)"
+        for bb, t in wsa.calls():
+            if callee_name(t) == "map_axis":
+                a = wsa.call_arg_exprs(bb)
+                cb, ups = closure_of(prog, a[2])
+                if ds(a[0])[:2] == ("param", 1) and ds(a[1])[:2] == ("param", 2) and cb is not None:
+                    red = reduction_in(prog, cb)
+                    prods = red["producers"]
+                    # producers: (lane = closure param 2, weights = parameter 3 of the routine)
+                    lane_ok = prods[0][0].key == cb.key and prods[0][1][:2] == ("param", 2)
+                    w_ok = prods[1][0].key == wsa.key and prods[1][1][:2] == ("param", 3)
+                    same = ws_red is not None and canon_op(red["step"]) == canon_op(ws_red["step"]) and red["init"] == ws_red["init"]
+                    ok = lane_ok and w_ok and same
+                    detail = ("each lane is reduced with the kernel of weighted_sum (operation-identical), paired with the caller's weights" if ok else
+                              "lane kernel: lane producer ok=%s, weights producer ok=%s, step `%s` vs weighted_sum's `%s`"
+                              % (lane_ok, w_ok, show(red["step"]), show(ws_red["step"]) if ws_red else "?"))
+        ctx.ob("R13", "weighted_sum_axis/kernel-eq", ok, wsa.where(), detail, what="per-axis weighted sum is not the whole-array kernel per lane")
+    except Unrecognised as ex:
+        unrec(ctx, "R13", "weighted_sum_axis/kernel-eq", wsa.where(), ex)
+    # weighted_mean = weighted_sum / Σ weights
+    wm = S("weighted_mean")
+    try:
+        t = scalar_value(prog, wm, {2: "w"})
+        rec.equal("weighted_mean/formula", wm.where(), t, ("div", ("sym", "weighted_sum"), ("sym", "Σ[w]")), "not weighted_sum / Σw", "weighted_mean")
+    except Unrecognised as ex:
+        unrec(ctx, rule, "weighted_mean/formula", wm.where(), ex)
+    # weighted_mean_axis = weighted_sum_axis elementwise / Σ weights
+    wma = S("weighted_mean_axis")
+    try:
+        ok = False
+        detail = "no mapv_inplace on the per-axis weighted sum"
+        tb = prog.tracked(wma)
+        for bb, t in tb.calls():
+            if callee_name(t) == "mapv_inplace":
+                a = tb.call_arg_exprs(bb)
+                tgt = unwrap_try(a[0])
+                cb, ups = closure_of(prog, a[1])
+                is_wsa = isinstance(tgt, tuple) and tgt[0] == "call" and tgt[1] == "weighted_sum_axis"
+                ret, _ = closure_terms(prog, cb, {2: ("sym", "v")}, upvar_leaf=lambda e: ("sym", "^" + str(e[2])))
+                div_ok = ret[0] == "div" and ret[1] == ("sym", "v") and ret[2][0] == "sym"
+                # the divisor is sum(weights)
+                dv = ds(ups[0]) if ups else None
+                dv_ok = isinstance(dv, tuple) and dv[0] == "call" and dv[1] == "sum" and ds(dv[3][0])[:2] == ("param", 3)
+                # the returned array is that same array
+                ok = is_wsa and div_ok and dv_ok
+                detail = "= weighted_sum_axis(..)? with every element divided by weights.sum() (mirrors weighted_mean)" if ok else \
+                    "target is per-axis sum=%s, closure `%s`, divisor is weights.sum()=%s" % (is_wsa, show(ret), dv_ok)
+        ctx.ob("R13", "weighted_mean_axis/mirrors-weighted_mean", ok, wma.where(), detail, what="per-axis weighted mean differs from the whole-array form")
+    except Unrecognised as ex:
+        unrec(ctx, "R13", "weighted_mean_axis/mirrors-weighted_mean", wma.where(), ex)
+    rec.flush()
+
+
+# ======================================================================================= C07 variance / moments
+
+def west_recurrence(prog):
+    """loop of inner_weighted_var → dict(state symbols, init terms, step terms, result term)"""
+    b = prog.find("summary_statistics::means::inner_weighted_var")
+    tb = prog.tracked(b)
+    lp = T.Loop(tb)
+    it = lp.iterator()
+    if it is None:
+        raise Unrecognised("no iterator loop in inner_weighted_var")
+    il, item, iinit = it
+    struct, prods = T.zip_structure(prog, tb, iinit)
+    if struct != ("e0", "e1"):
+        raise Unrecognised("iterator is not zip(a, b)")
+    isyms = T.item_symbols(item, ("x", "w"))
+    carried = [l for l in lp.carried if l != il and tb.local_name(l)]
+    phis = {ds(lp.head_phi(l)): ("sym", "S_" + tb.local_name(l)) for l in carried}
+    params = {l: ("sym", tb.local_name(l)) for l in range(1, tb.arg_count + 1)}
+
+    def leaf(e):
+        if e in phis:
+            return phis[e]
+        if e in isyms:
+            return isyms[e]
+        if isinstance(e, tuple) and e[0] == "param" and e[1] in params:
+            return params[e[1]]
+        return None
+    K = Kernel(prog, tb, leaf)
+    state = {}
+    for l in carried:
+        nm = tb.local_name(l)
+        state[nm] = dict(init=K.term(lp.init_expr(l)), step=K.term(lp.step_expr(l)))
+    # result
+    r = ds(tb.return_expr())
+    if not (isinstance(r, tuple) and r[0] == "agg" and r[2] == "Ok"):
+        raise Unrecognised("result is not Ok(..)")
+    res = K.term(r[3][0])
+    return dict(state=state, result=res, producers=prods, body=tb)
+
+
+WEST_SCRIPT = r'''
+import json, sys
+import sympy as sp
+req = json.load(sys.stdin)
+syms = {}
+def S(n):
+    if n not in syms: syms[n] = sp.Symbol(n, real=True)
+    return syms[n]
+def conv(t):
+    k = t[0]
+    if k == "sym": return S(t[1])
+    if k == "num": return sp.Integer(t[1]) if isinstance(t[1], int) else sp.nsimplify(t[1])
+    if k == "add": return conv(t[1]) + conv(t[2])
+    if k == "sub": return conv(t[1]) - conv(t[2])
+    if k == "mul": return conv(t[1]) * conv(t[2])
+    if k == "div": return conv(t[1]) / conv(t[2])
+    if k == "neg": return -conv(t[1])
+    if k == "pow": return conv(t[1]) ** int(t[2])
+    raise ValueError(str(t)[:60])
+st = req["state"]; names = req["names"]    # names: W, M, S variable names in the code
+W, M, Sv = names["W"], names["M"], names["S"]
+x, w, zero, ddof = S("x"), S("w"), S("zero"), S("ddof")
+A, B, C = S("A"), S("B"), S("C")           # A = Σw, B = Σwx, C = Σwx² over the elements seen so far
+cur = {"S_"+W: A, "S_"+M: B/A, "S_"+Sv: C - B**2/A}
+step = {n: conv(st[n]["step"]) for n in st}
+out = {}
+# inductive step: substitute the invariant, compare with the invariant over A+w, B+wx, C+wx²
+A2, B2, C2 = A + w, B + w*x, C + w*x**2
+want = {W: A2, M: B2/A2, Sv: C2 - B2**2/A2}
+ind = {}
+for n in (W, M, Sv):
+    got = step[n].subs({S(k): v for k, v in cur.items()}, simultaneous=True)
+    ind[n] = str(sp.simplify(got - want[n]))
+out["inductive"] = ind
+# base case: one step from the initial state equals the invariant with A=w, B=wx, C=wx²
+init = {"S_"+n: conv(st[n]["init"]).subs(zero, 0) for n in st}
+base = {}
+for n in (W, M, Sv):
+    got = step[n].subs({S(k): v for k, v in init.items()}, simultaneous=True)
+    wantb = want[n].subs({A: 0, B: 0, C: 0}) if n == W else {M: x, Sv: sp.Integer(0)}[n]
+    base[n] = str(sp.simplify(got - wantb))
+out["base"] = base
+# result: S/(W - ddof) with the invariant equals Σw(x-xbar)²/(Σw - ddof), where Σw(x-xbar)² = C - 2 xbar B + xbar² A
+res = conv(req["result"]).subs({S(k): v for k, v in cur.items()}, simultaneous=True)
+xbar = B/A
+defn = (C - 2*xbar*B + xbar**2*A) / (A - ddof)
+out["result"] = str(sp.simplify(res - defn))
+out["ddof_in_result"] = bool(conv(req["result"]).has(ddof))
+json.dump(out, sys.stdout)
+'''
+
+
+def rule_west(ctx, prog, rule="R19"):
+    import json
+    import os
+    import subprocess
+    try:
+        wr = west_recurrence(prog)
+    except Unrecognised as ex:
+        unrec(ctx, rule, "inner_weighted_var/recurrence", "", ex)
+        return
+    tb = wr["body"]
+    w = tb.where()
+    st = wr["state"]
+    # identify the three state variables by their update shape: W' = W + w ; the one divided into the result; the mean
+    names = {}
+    for n, s in st.items():
+        if s["step"] == ("add", ("sym", "S_" + n), ("sym", "w")):
+            names["W"] = n
+    res = wr["result"]
+    if res[0] == "div" and res[1][0] == "sym" and res[1][1].startswith("S_"):
+        names["S"] = res[1][1][2:]
+    rest = [n for n in st if n not in names.values()]
+    if len(rest) == 1:
+        names["M"] = rest[0]
+    ok = set(names) == {"W", "M", "S"} and len(st) == 3
+    ctx.ob(rule, "inner_weighted_var/skeleton", ok, w,
+           "one pass over zip(arr, weights) with state (Σw=%s, mean=%s, S=%s): %s" % (
+               names.get("W"), names.get("M"), names.get("S"), {n: show(s["step"]) for n, s in st.items()}) if ok else
+           "anchor not recognised: loop state is %s, result %s" % ({n: show(s["step"]) for n, s in st.items()}, show(res)),
+           what="anchor not recognised")
+    prods = wr["producers"]
+    p_ok = len(prods) == 2 and prods[0][1][:2] == ("param", 1) and prods[1][1][:2] == ("param", 2)
+    ctx.ob(rule, "inner_weighted_var/producers", p_ok, w, "data paired with weights by logical index" if p_ok else
+           "loop does not pair (arr, weights)", what="data not paired with weights")
+    if not ok:
+        return
+    req = {"state": {n: {"init": T.to_json(s["init"]), "step": T.to_json(s["step"])} for n, s in st.items()},
+           "names": names, "result": T.to_json(res)}
+    p = subprocess.run(["python3-vt", "-c", WEST_SCRIPT], input=json.dumps(req), stdout=subprocess.PIPE, stderr=subprocess.PIPE, text=True,
+                       env=dict(os.environ, PYTHONWARNINGS="ignore"))
+    if p.returncode != 0:
+        ctx.ob(rule, "inner_weighted_var/induction", False, w, "anchor not recognised: CAS failed: %s" % p.stderr[-300:], what="anchor not recognised")
+        return
+    out = json.loads(p.stdout)
+    for n in ("W", "M", "S"):
+        v = names[n]
+        ctx.ob(rule, "inner_weighted_var/inductive-step/%s" % n, out["inductive"][v] == "0", w,
+               "with W=Σw, mean=Σwx/Σw, S=Σwx²−(Σwx)²/Σw the update of `%s` re-establishes the invariant for one more element" % v
+               if out["inductive"][v] == "0" else
+               "the update `%s` of `%s` does not preserve the weighted-variance invariant (residual %s)" % (show(st[v]["step"]), v, out["inductive"][v]),
+               what="West recurrence broken")
+        ctx.ob(rule, "inner_weighted_var/base-case/%s" % n, out["base"][v] == "0", w,
+               "first element from the zero state gives the invariant" if out["base"][v] == "0" else
+               "from the initial state the first update of `%s` is off by %s" % (v, out["base"][v]), what="West base case broken")
+    ctx.ob(rule, "inner_weighted_var/result", out["result"] == "0", w,
+           "result = S/(W − ddof) = Σw(x−x̄_w)²/(Σw − ddof) in exact arithmetic" if out["result"] == "0" else
+           "the returned value `%s` differs from Σw(x−x̄)²/(Σw−ddof) by %s (e.g. ddof not reaching the denominator)" % (show(res), out["result"]),
+           what="weighted variance formula wrong")
+
+
+def vec_literal_values(tb, bb):
+    """vec![..] lowering: a store of an array aggregate into a fresh box in block bb followed by box_assume_init_into_vec_unsafe"""
+    t = tb.term(bb)
+    if not (t["k"] == "call" and "into_vec" in callee_name(t)):
+        return None
+    for si, s in enumerate(tb.blocks[bb]["stmts"]):
+        if s["k"] == "assign" and s["dst"]["p"] and s["rv"]["k"] == "agg" and s["rv"].get("array"):
+            return [tb.operand_expr(f, bb, si) for f in s["rv"]["fields"]]
+    return None
+
+
+def rule_c07(ctx, prog, rule="R19"):
+    rec = Recorder(ctx, rule)
+    S = lambda n: prog.method("SummaryStatisticsExt", n)
+    rule_west(ctx, prog, rule)
+    # order 0 ⇒ exactly one(), order 1 ⇒ exactly zero()
+    from .paths import enumerate_paths
+    for name in ("central_moment", "central_moments"):
+        root = S(name)
+        tb = prog.tracked(root)
+        sw = [bb for bb in tb.live_blocks() if tb.term(bb)["k"] == "switch" and ds(tb.switch_discr_expr(bb))[:2] == ("param", 2)]
+        ok = False
+        detail = "no match on the order parameter"
+        if sw:
+            bb = sw[0]
+            t = tb.term(bb)
+            from .rules_guard import Routine
+            r = Routine.__new__(Routine)
+            r.prog, r.body = prog, tb
+            got = {}
+            for v, tgt in t["arms"]:
+                vals = []
+                for d in r.first_ret_defs(tgt, bb):
+                    if d in (None, "loop"):
+                        vals.append(None)
+                        continue
+                    e = ds(tb.def_expr(0, d))
+                    inner = e[3][0] if isinstance(e, tuple) and e[0] == "agg" and e[2] == "Ok" else None
+                    if name == "central_moment":
+                        vals.append(inner)
+                    else:
+                        # Ok(vec![...]) – find the literal in the arm
+                        lit = None
+                        for b2 in tb.reachable_from(tgt, avoid=(bb,)):
+                            lv = vec_literal_values(tb, b2)
+                            if lv is not None and tb.dominates(tgt, b2):
+                                lit = lv
+                                break
+                        vals.append(tuple(ds(x) for x in lit) if lit is not None else None)
+                got[v] = vals
+
+            def is_call0(e, nm):
+                return isinstance(e, tuple) and e[0] == "call" and e[1] == nm and not e[3]
+            if name == "central_moment":
+                ok = len(got.get(0, [])) == 1 and is_call0(got[0][0], "one") and len(got.get(1, [])) == 1 and is_call0(got[1][0], "zero")
+            else:
+                v0 = got.get(0, [None])[0]
+                v1 = got.get(1, [None])[0]
+                ok = bool(v0) and len(v0) == 1 and is_call0(v0[0], "one") and bool(v1) and len(v1) == 2 and is_call0(v1[0], "one") and is_call0(v1[1], "zero")
+            detail = "order 0 ⇒ one(), order 1 ⇒ zero() as constants" if ok else "arms give %s" % {k: [fmt(x) if not isinstance(x, tuple) or (x and isinstance(x[0], str)) else [fmt(y) for y in x] for x in v] for k, v in got.items()}
+        ctx.ob("R13", "%s/order-0-1-constant" % name, ok, root.where(), detail, what="order 0/1 not the exact constants")
+    # general arm of central_moments starts the vector with [one(), zero()] too
+    root = S("central_moments")
+    tb = prog.tracked(root)
+    lits = []
+    for bb in tb.live_blocks():
+        lv = vec_literal_values(tb, bb)
+        if lv is not None:
+            lits.append([ds(x) for x in lv])
+    ok = sum(1 for l in lits if len(l) == 2 and l[0][1] == "one" and l[1][1] == "zero") >= 2
+    ctx.ob("R13", "central_moments/prefix-constants", ok, root.where(), "every arm with ≥ 2 entries starts [one(), zero()]" if ok else
+           "vector literals: %s" % [[fmt(x) for x in l] for l in lits], what="bulk moments do not start with the exact constants")
+    # skewness / kurtosis formulas over central_moments(k)
+    for name, spec in (("kurtosis", ("div", ("sym", "cm[4]"), ("pow", ("sym", "cm[2]"), 2))),
+                       ("skewness", ("div", ("sym", "cm[3]"), ("pow", ("fn", "sqrt", ("sym", "cm[2]")), 3)))):
+        root = S(name)
+        try:
+            def extra(body, e):
+                if isinstance(e, tuple) and e[0] == "call" and e[1] == "index" and len(e[3]) == 2:
+                    src = unwrap_try(e[3][0])
+                    i = ds(e[3][1])
+                    if isinstance(src, tuple) and src[0] == "call" and src[1] == "central_moments" and ds(src[3][0])[:2] == ("param", 1) and i[0] == "const":
+                        order = ds(src[3][1])
+                        if order[0] == "const" and order[2] >= i[2]:
+                            return ("sym", "cm[%d]" % i[2])
+                return None
+            t = routine_value(prog, root, extra=extra)
+            rec.equal("%s/formula" % name, root.where(), t, spec, "not the documented ratio of central moments", name)
+        except Unrecognised as ex:
+            unrec(ctx, rule, "%s/formula" % name, root.where(), ex)
+    # per-axis = lane-wise kernel with the caller's weights and ddof; std = sqrt ∘ var
+    wv = S("weighted_var")
+    wva = S("weighted_var_axis")
+    try:
+        r = ds(wv.return_expr())
+        # weighted_var returns inner_weighted_var(self, weights, ddof, zero)
+        finals = [ds(wv.def_expr(0, d)) for d in wv.reaching_defs(0, wv.exits()[0], "term")]
+        call = [f for f in finals if isinstance(f, tuple) and f[0] == "call" and f[1] == "inner_weighted_var"]
+        ok1 = len(call) == 1 and call[0][3][0][:2] == ("param", 1) and call[0][3][1][:2] == ("param", 2) and call[0][3][2][:2] == ("param", 3)
+        zero1 = call[0][3][3] if call else None
+        ok2 = False
+        detail2 = "no map_axis(self, axis, closure)"
+        for bb, t in wva.calls():
+            if callee_name(t) == "map_axis":
+                a = wva.call_arg_exprs(bb)
+                cb, ups = closure_of(prog, a[2])
+                if cb is None:
+                    continue
+                cr = unwrap_try(cb.return_expr())
+                if isinstance(cr, tuple) and cr[0] == "call" and cr[1] == "inner_weighted_var":
+                    lane = ds(cr[3][0])[:2] == ("param", 2)
+                    pb, wexp = up(prog, cb, cr[3][1])
+                    wexp = ds(wexp)
+                    while isinstance(wexp, tuple) and wexp[0] == "call" and wexp[1] == "view":
+                        wexp = ds(wexp[3][0])
+                    w_ok = wexp[:2] == ("param", 3)
+                    pb2, dexp = up(prog, cb, cr[3][2])
+                    d_ok = ds(dexp)[:2] == ("param", 4)
+                    pb3, zexp = up(prog, cb, cr[3][3])
+                    z_ok = _strip_sites(ds(zexp)) == _strip_sites(zero1) if zero1 is not None else False
+                    ax = ds(a[0])[:2] == ("param", 1) and ds(a[1])[:2] == ("param", 2)
+                    ok2 = lane and w_ok and d_ok and z_ok and ax
+                    detail2 = "each lane → inner_weighted_var(lane, weights, ddof, zero) with the caller's weights and ddof" if ok2 else \
+                        "lane=%s weights=%s ddof=%s zero=%s (self,axis)=%s" % (lane, w_ok, d_ok, z_ok, ax)
+        ctx.ob("R13", "weighted_var/kernel-call", ok1, wv.where(), "= inner_weighted_var(self, weights, ddof, zero)" if ok1 else
+               "weighted_var does not hand (self, weights, ddof) to the kernel unchanged", what="whole-array variance kernel arguments")
+        ctx.ob("R13", "weighted_var_axis/lane-kernel", ok2, wva.where(), detail2, what="per-axis variance is not the whole-array kernel per lane")
+    except Unrecognised as ex:
+        unrec(ctx, "R13", "weighted_var_axis/lane-kernel", wva.where(), ex)
+    for name, base in (("weighted_std", "weighted_var"), ("weighted_std_axis", "weighted_var_axis")):
+        root = S(name)
+        ok = False
+        r = None
+        finals = [ds(root.def_expr(0, d)) for d in root.reaching_defs(0, root.exits()[0], "term")]
+        for f in finals:
+            if isinstance(f, tuple) and f[0] == "agg" and f[2] == "Ok":
+                v = ds(f[3][0])
+                if name == "weighted_std":
+                    ok = isinstance(v, tuple) and v[0] == "call" and v[1] == "sqrt" and \
+                        isinstance(unwrap_try(v[3][0]), tuple) and unwrap_try(v[3][0])[1] == base
+                else:
+                    if isinstance(v, tuple) and v[0] == "call" and v[1] in ("mapv_into", "mapv", "map") and unwrap_try(v[3][0])[1] == base:
+                        cb, ups = closure_of(prog, v[3][1])
+                        ret, _ = closure_terms(prog, cb, {2: ("sym", "x")})
+                        ok = ret == ("fn", "sqrt", ("sym", "x"))
+        ctx.ob("R13", "%s/sqrt-of-var" % name, ok, root.where(), "= sqrt ∘ %s" % base if ok else "%s is not the square root of %s" % (name, base),
+               what="standard deviation is not sqrt(variance)")
+    rec.flush()
+
+
+def _strip_sites(e):
+    if not isinstance(e, tuple):
+        return e
+    if e[0] == "call":
+        return ("call", e[1], e[2], tuple(_strip_sites(a) for a in e[3]))
+    return tuple(_strip_sites(x) if isinstance(x, tuple) else x for x in e)
+
+
+# ======================================================================================= C12 bins from strategies (R17)
+
+def self_field_leaf(e):
+    if isinstance(e, tuple) and e[0] == "field" and isinstance(e[1], tuple) and e[1][:2] == ("param", 1):
+        return ("sym", "self." + e[2])
+    return None
+
+
+def inline_local_call(prog, caller_tb, e, leaf, depth=0):
+    """term of a call to a private crate function by inlining its (loop-free, branch-free) return expression"""
+    cb = prog.bodies.get(e[2])
+    if cb is None:
+        # method call resolved by name on EquiSpaced
+        cands = [b for b in prog.bodies.values() if b.name == e[1] and "EquiSpaced" in b.key and not b.is_closure]
+        cb = cands[0] if len(cands) == 1 else None
+    if cb is None or depth > 3:
+        return None
+    tb = prog.tracked(cb)
+    if any(tb.term(bb)["k"] == "switch" for bb in tb.live_blocks()):
+        return None
+    args = [caller_term for caller_term in e[3]]
+    amap = {}
+
+    def leaf2(x):
+        if isinstance(x, tuple) and x[0] == "param":
+            i = x[1]
+            if i - 1 < len(args):
+                return amap.setdefault(i, ("arg", i))
+        return None
+    # build the callee's term with parameter placeholders, then substitute caller terms
+    K2 = Kernel(prog, tb, lambda x: (("sym", "self." + x[2]) if (isinstance(x, tuple) and x[0] == "field" and isinstance(x[1], tuple) and x[1][:2] == ("param", 1) and ds(e[3][0])[:2] == ("param", 1)) else
+                                      (("sym", "@arg%d" % x[1]) if (isinstance(x, tuple) and x[0] == "param") else None)))
+    t = K2.term(tb.return_expr())
+    return t, cb
+
+
+def edge_terms(prog):
+    """(compared-with-max term in n_bins as a function of its counter, pushed term in build as a function of its index, details)"""
+    nb = prog.find("histogram::strategies::EquiSpaced::<T>::n_bins")
+    bd = prog.find("histogram::strategies::EquiSpaced::<T>::build")
+    tn = prog.tracked(nb)
+    tbd = prog.tracked(bd)
+    out = {}
+    # ---- n_bins: loop, exit condition `X <= self.max`, returned counter
+    lp = T.Loop(tn)
+    ec = lp.exit_condition()
+    if ec is None:
+        raise Unrecognised("n_bins: no loop exit condition")
+    bb, de, stay = ec
+    de = ds(de)
+    if not (isinstance(de, tuple) and de[0] == "call" and de[1] in ("le", "lt", "ge", "gt") and len(de[3]) == 2):
+        raise Unrecognised("n_bins: loop condition `%s`" % fmt(de))
+    lhs, rhs = de[3]
+    if self_field_leaf(rhs) != ("sym", "self.max") and self_field_leaf(lhs) == ("sym", "self.max"):
+        lhs, rhs = rhs, lhs
+    out["cmp_op"] = de[1]
+    out["cmp_against_max"] = self_field_leaf(rhs) == ("sym", "self.max")
+    # returned counter
+    r = ds(tn.return_expr())
+    counters = [l for l in lp.carried if ds(lp.head_phi(l)) == r]
+    if len(counters) != 1:
+        raise Unrecognised("n_bins: returned value is not a loop-carried counter")
+    ctr = counters[0]
+    cphi = ds(lp.head_phi(ctr))
+    Kc = Kernel(prog, tn, lambda e: ("sym", "CTR") if e == cphi else None)
+    out["counter_step"] = Kc.term(lp.step_expr(ctr))
+    out["counter_init"] = Kc.term(lp.init_expr(ctr))
+    # compared value as a function of the counter only
+    other = {ds(lp.head_phi(l)): l for l in lp.carried if l != ctr}
+
+    class Acc(Exception):
+        pass
+
+    def leaf_n(e):
+        if e == cphi:
+            return ("sym", "i")
+        if e in other:
+            raise Acc(other[e])
+        sf = self_field_leaf(e)
+        if sf:
+            return sf
+        if isinstance(e, tuple) and e[0] == "call" and (e[2].startswith("histogram::strategies::EquiSpaced") and e[1] not in ("n_bins",)):
+            res = inline_local_call(prog, tn, e, None)
+            if res is not None:
+                t, cb = res
+                m = {}
+                for k, a in enumerate(e[3]):
+                    if k == 0:
+                        continue
+                    m["@arg%d" % (k + 1)] = Kn.term(a)
+                out.setdefault("helpers", set()).add(cb.key)
+                return subst_t(t, m)
+        return None
+    Kn = Kernel(prog, tn, leaf_n)
+    try:
+        out["compared"] = Kn.term(lhs)
+        out["accumulated"] = None
+    except Acc as a:
+        l = a.args[0]
+        Ka = Kernel(prog, tn, lambda e: ("sym", "E") if e == ds(lp.head_phi(l)) else self_field_leaf(e))
+        out["compared"] = None
+        out["accumulated"] = dict(var=tn.local_name(l), init=show(Ka.term(lp.init_expr(l))), step=show(Ka.term(lp.step_expr(l))))
+    # ---- build: loop over 0..=n_bins pushing edge(i)
+    lpb = T.Loop(tbd)
+    it = lpb.iterator()
+    if it is None:
+        raise Unrecognised("build: no iterator loop")
+    il, item, iinit = it
+    rng = ds(iinit)
+    while isinstance(rng, tuple) and rng[0] == "call" and rng[1] == "into_iter":
+        rng = ds(rng[3][0])
+    out["range"] = rng
+    pushes = [(pb, t) for pb, t in tbd.calls() if callee_name(t) == "push" and pb in lpb.blocks]
+    if len(pushes) != 1:
+        raise Unrecognised("build: %d pushes in the loop" % len(pushes))
+    pb, pt = pushes[0]
+    pushed = tbd.call_arg_exprs(pb)[1]
+    item_d = ds(item)
+
+    def leaf_b(e):
+        if e == item_d:
+            return ("sym", "i")
+        sf = self_field_leaf(e)
+        if sf:
+            return sf
+        if isinstance(e, tuple) and e[0] == "call" and (e[2].startswith("histogram::strategies::EquiSpaced") and e[1] not in ("n_bins",)):
+            res = inline_local_call(prog, tbd, e, None)
+            if res is not None:
+                t, cb = res
+                m = {}
+                for k, a in enumerate(e[3]):
+                    if k == 0:
+                        continue
+                    m["@arg%d" % (k + 1)] = Kb.term(a)
+                out.setdefault("helpers", set()).add(cb.key)
+                return subst_t(t, m)
+        return None
+    Kb = Kernel(prog, tbd, leaf_b)
+    out["pushed"] = Kb.term(pushed)
+    # result: Bins::new(Edges::from(edges vector))
+    out["build_body"] = tbd
+    out["nbins_body"] = tn
+    return out
+
+
+def rule_r17(ctx, prog, rule="R17"):
+    rec = Recorder(ctx, "R19")
+    try:
+        et = edge_terms(prog)
+    except Unrecognised as ex:
+        unrec(ctx, rule, "EquiSpaced/edge-terms", "", ex)
+        return
+    wn = et["nbins_body"].where()
+    wb = et["build_body"].where()
+    if et["compared"] is None:
+        a = et["accumulated"]
+        ctx.ob(rule, "EquiSpaced/n_bins-vs-build/edge-formula/found:accumulated(%s' = %s)" % (a["var"], a["step"]), False, wn,
+               "n_bins() stops counting on an *accumulated* edge (`%s` starts at %s, then %s' = %s) while build() places edge i at `%s`: "
+               "for floating-point element types the two rounding sequences differ, so the last built edge can equal the maximum "
+               "(the maximum falls outside the right-open last bin) or the counting loop need not terminate"
+               % (a["var"], a["init"], a["var"], a["step"], show(et["pushed"])),
+               what="n_bins and build use different edge formulas")
+    else:
+        same = canon_op(et["compared"]) == canon_op(et["pushed"])
+        ctx.ob(rule, "EquiSpaced/n_bins-vs-build/edge-formula", same, wn,
+               "the edge compared with max in n_bins() and the edge pushed by build() are the same operation DAG of the counter: `%s`"
+               % show(et["pushed"]) if same else
+               "n_bins() compares `%s` with max, build() pushes `%s`: not the same operations" % (show(et["compared"]), show(et["pushed"])),
+               what="n_bins and build use different edge formulas")
+    ctx.ob(rule, "EquiSpaced/n_bins/compares-with-max", et["cmp_against_max"] and et["cmp_op"] in ("le", "gt"), wn,
+           "counting continues while edge <= self.max (so the last edge is strictly above the maximum)" if et["cmp_against_max"] else
+           "loop condition does not compare the edge with self.max", what="bin counting not bounded by the maximum")
+    ctx.ob(rule, "EquiSpaced/n_bins/counter", et["counter_step"] == ("add", ("sym", "CTR"), ("num", 1)) and et["counter_init"][0] == "num",
+           wn, "returned counter starts at %s and is incremented by 1 per iteration" % show(et["counter_init"]),
+           what="bin counter is not a unit-step counter")
+    # build: indices 0..=n_bins(self)
+    rng = et["range"]
+    ok = isinstance(rng, tuple) and rng[0] == "call" and rng[1] == "new" and "RangeInclusive" in rng[2] and ds(rng[3][0]) == ("const", "usize", 0)
+    if ok:
+        hi = ds(rng[3][1])
+        ok = isinstance(hi, tuple) and hi[0] == "call" and hi[1] == "n_bins" and ds(hi[3][0])[:2] == ("param", 1)
+    ctx.ob(rule, "EquiSpaced/build/index-range", ok, wb, "edges are built for i in 0..=self.n_bins()" if ok else
+           "build iterates over `%s`" % fmt(rng), what="number of built bins differs from n_bins()")
+    # edge(0) = min, edges equally spaced by bin_width (algebraic)
+    p = et["pushed"]
+    rec.equal("EquiSpaced/build/first-edge-is-min", wb, subst_t(p, {"i": ("num", 0)}), ("sym", "self.min"),
+              "first edge is not the data minimum", "edge(0)")
+    rec.equal("EquiSpaced/build/equal-width", wb, ("sub", subst_t(p, {"i": ("add", ("sym", "i"), ("num", 1))}), p), ("sym", "self.bin_width"),
+              "consecutive edges are not bin_width apart", "edge(i+1) − edge(i)")
+    rec.flush()
+
+
+STRATEGIES = ["Sqrt", "Rice", "Sturges", "FreedmanDiaconis"]
+
+
+def rule_c12_structure(ctx, prog, rule="R13"):
+    from .rules_hist import aggregates_of, is_derive
+    # every EquiSpaced{..} is built in EquiSpaced::new under the validity guard
+    ES = "histogram::strategies::EquiSpaced"
+    aggs = [(b, bb, si) for (b, bb, si) in aggregates_of(prog, ES) if not is_derive(b)]
+    newb = prog.find("histogram::strategies::EquiSpaced::<T>::new")
+    for (b, bb, si) in aggs:
+        ok = b.key == newb.key
+        ctx.ob("R11", "EquiSpaced/constructed-in/%s" % short(b.key), ok, b.where(bb, si),
+               "constructed only by EquiSpaced::new" if ok else "EquiSpaced built outside its validating constructor", what="builder without validity guard")
+        if ok:
+            # dominated by the false edges of `bin_width <= zero()` and `min >= max`
+            doms = []
+            for sb in b.live_blocks():
+                st = b.term(sb)
+                if st["k"] != "switch":
+                    continue
+                de = ds(b.switch_discr_expr(sb))
+                if isinstance(de, tuple) and de[0] == "call" and de[1] in ("le", "ge", "lt", "gt") and len(de[3]) == 2:
+                    f = [tgt for v, tgt in st["arms"] if v == 0]
+                    if f and branch_dominates(b, sb, f[0], bb):
+                        doms.append((de[1], de[3][0], de[3][1]))
+            w_ok = any(op == "le" and x[:2] == ("param", 1) and y[0] == "call" and y[1] == "zero" for op, x, y in doms)
+            m_ok = any(op == "ge" and x[:2] == ("param", 2) and y[:2] == ("param", 3) for op, x, y in doms)
+            ctx.ob("R11", "EquiSpaced::new/validity-guard", w_ok and m_ok, b.where(),
+                   "construction dominated by !(bin_width <= 0) and !(min >= max): every builder has width > 0 ∧ min < max" if w_ok and m_ok else
+                   "construction is not dominated by both validity conditions (width>0: %s, min<max: %s)" % (w_ok, m_ok),
+                   what="invalid builder constructible")
+            s = b.blocks[bb]["stmts"][si]
+            fields = dict(zip(s["rv"]["field_names"], [ds(b.operand_expr(f, bb, si)) for f in s["rv"]["fields"]]))
+            roles = fields.get("bin_width", ())[:2] == ("param", 1) and fields.get("min", ())[:2] == ("param", 2) and fields.get("max", ())[:2] == ("param", 3)
+            ctx.ob("R11", "EquiSpaced::new/field-roles", roles, b.where(), "fields (bin_width, min, max) take the parameters of the same name" if roles else
+                   "fields are filled from the wrong parameters: %s" % {k: fmt(v) for k, v in fields.items()}, what="builder fields permuted")
+    a = prog.adts.get(ES)
+    priv = bool(a) and not a["public"] and all(not f["public"] for v in a["variants"] for f in v["fields"])
+    ctx.ob("R11", "EquiSpaced/private", priv, "", "struct and fields are module-private" if priv else "EquiSpaced or its fields are public", what="builder exposed")
+    # from_array of the four direct strategies: min ← a.min(), max ← a.max(), passed in that order
+    for sname in STRATEGIES:
+        fa = prog.find("histogram::strategies::%s<T> as histogram::strategies::BinsBuildingStrategy>::from_array" % sname)
+        news = [(bb, t) for bb, t in fa.calls() if callee_name(t) == "new" and "EquiSpaced" in (t["callee"].get("path") or "")]
+        ok = len(news) == 1
+        detail = "%d EquiSpaced::new calls" % len(news)
+        if ok:
+            bb, t = news[0]
+            a_ = [ds(x) for x in fa.call_arg_exprs(bb)]
+
+            def from_extremum(e, which):
+                for _ in range(4):
+                    if isinstance(e, tuple) and e[0] == "call" and e[1] == "clone" and e[3]:
+                        e = ds(e[3][0])
+                        continue
+                    break
+                u = unwrap_try(e)
+                return isinstance(u, tuple) and u[0] == "call" and u[1] == which and ds(u[3][0])[:2] == ("param", 1)
+            ok = from_extremum(a_[1], "min") and from_extremum(a_[2], "max")
+            detail = "EquiSpaced::new(width, a.min()?, a.max()?)" if ok else "min/max arguments are `%s`, `%s`" % (fmt(a_[1])[:60], fmt(a_[2])[:60])
+        ctx.ob("R13", "%s::from_array/min-max-provenance" % sname, ok, fa.where(), detail, what="bins do not span [data min, data max]")
+        # build / n_bins / bin_width delegate to the builder
+        for m in ("build", "n_bins"):
+            mb = prog.find("histogram::strategies::%s<T> as histogram::strategies::BinsBuildingStrategy>::%s" % (sname, m))
+            r = ds(mb.return_expr())
+            okd = isinstance(r, tuple) and r[0] == "call" and r[1] == m and "EquiSpaced" in r[2] and r[3][0] == ("field", ("param", 1, "self"), "builder")
+            ctx.ob("R13", "%s::%s/delegates" % (sname, m), okd, mb.where(), "= self.builder.%s()" % m if okd else "`%s`" % fmt(r)[:100],
+                   what="strategy accessor does not use the shared builder")
+    # Auto: the three accessors dispatch on the same enum to the same variant's method
+    for m in ("build", "n_bins"):
+        mb = prog.find("histogram::strategies::Auto<T> as histogram::strategies::BinsBuildingStrategy>::%s" % m)
+        calls = [(bb, t) for bb, t in mb.calls() if callee_name(t) == m]
+        ok = len(calls) == 2
+        vs = set()
+        for bb, t in calls:
+            a0 = ds(mb.call_arg_exprs(bb)[0])
+            # (self.builder as Variant).0
+            if isinstance(a0, tuple) and a0[0] == "field" and isinstance(a0[1], tuple) and a0[1][0] == "downcast":
+                variant = a0[1][2]
+                callee_self = t["callee"].get("self_ty") or t["callee"].get("path_args") or ""
+                vs.add(variant)
+                if variant not in callee_self:
+                    ok = False
+        ok = ok and vs == {"Sturges", "FreedmanDiaconis"}
+        ctx.ob("R13", "Auto::%s/dispatch" % m, ok, mb.where(), "each variant dispatches to its own %s()" % m if ok else
+               "Auto::%s does not dispatch each variant to that variant's method" % m, what="Auto accessor dispatches to the wrong strategy")
